@@ -25,7 +25,7 @@ RULE = (
     "where native xarray refuses the configuration, values must equal groupby_reduce on the underlying arrays. "
     "Non-trivial = >=2 dims and (permuted order, 2-D grouper, two groupers, or a Dataset with a pass-through variable)."
 )
-BUDGET = {"quick": 160, "thorough": 2000}
+BUDGET = {"quick": 240, "thorough": 2000}
 WALL = {"quick": 500, "thorough": 3400}
 ASSUMPTIONS = [
     "native xarray with flox disabled is the oracle where it supports the configuration",
